@@ -13,7 +13,7 @@ LEVEL = 'model_checking'
 TIMEOUT_S = 900
 RULE = ('configurations = (grouping of layouts into handlers, 3-D/4-D shape, 2-D process grid, dtype, buffer given/not); in each, every '
         'ordered triple (a,b,c) of layouts is executed as consecutive transposes on one LayoutSwapper per simulated rank (dead buffer '
-        'regions poisoned before every step); a state is (configuration, current layout), a transition is one transpose; oracle per '
+        'regions poisoned before every step), and in mode `fork` every (a,b,c) as a->b with buffer followed by a->c from the intact source (the second call does not start where the previous one ended: two fields sharing one swapper); a state is (configuration, current layout), a transition is one transpose; oracle per '
         'transition: destination block == slice of the global array, source intact when a buffer is given, nProcs/mpiCoords/'
         'nDistributedDirections are those of the destination group; non-trivial = transition between different handler groups')
 ASSUMPTIONS = ['simmpi Allgather/Alltoall/Create_cart/Sub semantics incl. explicit MPI.DOUBLE byte counts',
@@ -64,7 +64,10 @@ def cases(tier, seed):
                     for dtype in ('float64', 'complex128'):
                         for buf in (False, True):
                             nl = sum(len(g) for g in groups)
-                            out.append({'grouping': gname, 'shape': shape, 'p': [p1, p2], 'dtype': dtype, 'buf': buf,
+                            out.append({'grouping': gname, 'shape': shape, 'p': [p1, p2], 'dtype': dtype, 'buf': buf, 'mode': 'walk',
+                                        'cost': nl ** 3 * p1 * p2})
+                        if shape in (shapes3[0], shapes3[3], shapes4[0]):
+                            out.append({'grouping': gname, 'shape': shape, 'p': [p1, p2], 'dtype': dtype, 'buf': True, 'mode': 'fork',
                                         'cost': nl ** 3 * p1 * p2})
     return out
 
@@ -136,12 +139,45 @@ def run_case(case):
         ctx['cur'] = dst
         ctx['lay'] = b
 
+    def fork(ctx, a, b, c, probs):
+        """a->b with a spare buffer (source stays intact), then the SAME intact source a->c: the second call starts
+        from a layout other than the one where the swapper's previous call ended (two fields sharing one swapper)"""
+        s = ctx['s']
+        bufs = ctx['bufs']
+        cur = ctx['cur']
+        dst = (cur + 1) % 3
+        sp = (cur + 2) % 3
+        la, lb, lc = s.getLayout(a), s.getLayout(b), s.getLayout(c)
+        bufs[cur][la.size:] = P
+        bufs[dst][:] = P
+        bufs[sp][:] = P
+        s.transpose(bufs[cur], bufs[dst], a, b, bufs[sp])
+        ctx['steps'] += 1
+        if not lay.same(bufs[dst][:lb.size].reshape(lb.shape), lay.block(G, lb)):
+            probs.append('dest(%s->%s)' % (a, b))
+        if not lay.same(bufs[cur][:la.size].reshape(la.shape), lay.block(G, la)):
+            probs.append('source-not-intact(%s->%s)' % (a, b))
+            bufs[cur][:la.size] = lay.block(G, la).ravel()
+        bufs[cur][la.size:] = P
+        bufs[sp][:] = P
+        s.transpose(bufs[cur], bufs[sp], a, c, None)
+        ctx['steps'] += 1
+        if group_of[a] != group_of[c]:
+            ctx['cross'] += 1
+        if not lay.same(bufs[sp][:lc.size].reshape(lc.shape), lay.block(G, lc)):
+            probs.append('dest-after-fork(%s->%s,then %s->%s)' % (a, b, a, c))
+        ctx['cur'] = sp
+        ctx['lay'] = c
+
     def do_item(ctx, tr):
         probs = []
         if ctx['lay'] != tr[0]:
             step(ctx, tr[0], probs)
-        step(ctx, tr[1], probs)
-        step(ctx, tr[2], probs)
+        if case.get('mode') == 'fork':
+            fork(ctx, tr[0], tr[1], tr[2], probs)
+        else:
+            step(ctx, tr[1], probs)
+            step(ctx, tr[2], probs)
         return probs
 
     counters = {'steps': 0, 'cross': 0}
